@@ -134,14 +134,14 @@ def run(c):
         cfgs += [dict(src="C", diffuse=1, n=[3, 2, 1], per=[0, 0, 0], copy=1, nthr=1, np=20001),
                  dict(src="DC", diffuse=0, n=[2, 2, 2], per=[1, 1, 1], copy=0, nthr=1, np=5000)]
 
-    def digest_run(k, cf, which):
+    def digest_run(k, cf, which, seed=77):
         d = os.path.join(rd, "det_%d_%s" % (k, which))
         shutil.rmtree(d, ignore_errors=True)
         import rhdparams
         n = tuple(cf["n"])
         kw = dict(ncell=tuple(4 * x for x in n), nsub=n, periodic=tuple(bool(x) for x in cf["per"]),
                   nphoton=cf["np"], niter=3, discrete="D" in cf["src"], continuous="C" in cf["src"],
-                  diffuse=bool(cf["diffuse"]), copy_level=cf["copy"], seed=77, nsources=cf.get("nsrc", 1))
+                  diffuse=bool(cf["diffuse"]), copy_level=cf["copy"], seed=seed, nsources=cf.get("nsrc", 1))
         p = rhdparams.ion_param(d, **kw)
         # same output folder name inside both runs (paths may appear in outputs): run in d, compare only snapshots
         snapdir = d
@@ -159,21 +159,28 @@ def run(c):
         ev = [json.dumps({k2: v for k2, v in json.loads(l).items() if k2 != "q"}) for l in open(os.path.join(d, "tr.ndjson"))] \
             if os.path.exists(os.path.join(d, "tr.ndjson")) else []
         h2 = hashlib.sha256("\n".join(ev).encode()).hexdigest()
+        fps = [tuple(json.loads(l)["fp"]) for l in open(os.path.join(d, "tr.ndjson"))
+               if '"src.d"' in l and '"fp"' in l] if os.path.exists(os.path.join(d, "tr.ndjson")) else []
         shutil.rmtree(d, ignore_errors=True)
-        return rc, len(names), h.hexdigest(), h2
+        return rc, len(names), h.hexdigest(), h2, fps
 
     def djob(k):
         a = digest_run(k, cfgs[k], "a")
         b = digest_run(k, cfgs[k], "b")
         cc = digest_run(k, cfgs[k], "c")
         if cc[0] != 0 or cc[1] == 0 or cc[2] != a[2]:
-            b = (b[0] if b[0] != 0 else cc[0], cc[1], cc[2] if b[2] == a[2] else b[2], "second set-up in one process")
-        return k, a, b
+            b = (b[0] if b[0] != 0 else cc[0], cc[1], cc[2] if b[2] == a[2] else b[2], "second set-up in one process", [])
+        other = digest_run(k, cfgs[k], "s", seed=78)
+        return k, a, b, other
 
     with ThreadPoolExecutor(max_workers=5) as ex:
         dres = list(ex.map(djob, range(len(cfgs))))
     recs = []
-    for k, a, b in dres:
+    extra_recs = []
+    for k, a, b, other in dres:
+        extra_recs.append({"e": "seeds", "differ": 1 if (other[0] == 0 and other[1] > 0 and other[2] != a[2]) else 0, "k": k})
+        if a[4]:
+            extra_recs.append({"e": "batches", "n": len(a[4]), "distinct": len(set(a[4])), "k": k})
         same = 1 if (a[0] == 0 and b[0] == 0 and a[1] > 0 and a[2] == b[2]) else 0
         if same and a[3] != b[3]:
             c.model_drift("one-thread runs of %s wrote identical snapshots but took different event orders "
@@ -185,8 +192,24 @@ def run(c):
     st, r = vlib.validate_trace("Trace_Ranlux.tla", "Trace_Ranlux.cfg", p, rd, tag="rerun", dfs=False, xss="1g")
     if st == "error":
         raise vlib.Inconclusive("TLC error on rerun records:\n" + r.out[-1500:])
+    # the seed matters / the consumed stream advances (one record at a time: each gets its own verdict)
+    for er in extra_recs:
+        p2 = os.path.join(rd, "rerun_extra.ndjson")
+        vlib.write_ndjson(p2, [{kk: vv for kk, vv in er.items() if kk != "k"}])
+        st2, r2 = vlib.validate_trace("Trace_Ranlux.tla", "Trace_Ranlux.cfg", p2, rd, tag="rerun_extra", dfs=False, xss="1g")
+        if st2 == "error":
+            raise vlib.Inconclusive("TLC error on run level records:\n" + r2.out[-1500:])
+        if st2 == "violated:SeedMatters":
+            c.violation("ranlux:seed-ignored:src=%s" % cfgs[er["k"]]["src"], "runs with seeds 77 and 78 of %s wrote identical snapshots: the "
+                        "run does not depend on its seed" % cfgs[er["k"]], {"config": cfgs[er["k"]]})
+        elif st2 == "violated:StreamAdvances":
+            c.violation("ranlux:stream-replayed:src=%s" % cfgs[er["k"]]["src"], "only %d of the %d batches of packets of a run of %s were drawn "
+                        "from different random numbers: the generator the run uses does not advance" % (er["distinct"], er["n"], cfgs[er["k"]]),
+                        {"config": cfgs[er["k"]], "batches": er})
+        elif st2 == "accepted":
+            c.cov["traces_validated_against_impl"] += 1
     if st != "accepted":
-        for (k, a, b), rec in zip(dres, recs):
+        for (k, a, b, other), rec in zip(dres, recs):
             if rec["same"] == 0:
                 c.violation("ranlux:rerun:diffuse=%d:src=%s" % (cfgs[k]["diffuse"], cfgs[k]["src"]),
                             "two one-thread runs with the same seed differ (snapshots %s vs %s, event traces %s): %s" % (
